@@ -8,7 +8,8 @@ AREA = "c09"
 LEAN_PROPS = "Litep2pVerif.Props.C09"
 THEOREMS = ["held_not_closed", "idle_closed_at", "idle_run_closed_at", "poll_settles", "ping_no_prolong", "primary_secondary",
             "inbound_negotiation_holds_connection",
-            "half_closed_substream_holds_connection", "fallback_name_substream_holds_connection"]
+            "half_closed_substream_holds_connection", "fallback_name_substream_holds_connection",
+            "clogged_open_keeps_handle"]
 CONSTS = ["KEEP_ALIVE_TIMEOUT_SECS"]
 CONST_TABLE = [
     ("KEEP_ALIVE_TIMEOUT_SECS", "src/transport/mod.rs",
@@ -63,7 +64,10 @@ RULE = ("tcploop: fixed, negotiation-spanning (inbound header-only / stalled out
         "model; c09: seeded schedules over 1-3 protocols (keep-alive Yes/No mixes), timeouts 40/100/250 ms, 2 peers with up to two "
         "overlapping connections: establishment, opens by every protocol, command receipt, success/failure answers, "
         "inbound substreams, substreams held across several periods and dropped, time steps before/at/after every "
-        "deadline (T-1, T, T+1, multiples), closes; a case is non-trivial if some connection was seen alive, later seen "
+        "deadline (T-1, T, T+1, multiples), closes; 10 `clog` schedules per quick run (1 per 100 cases otherwise): 256 open "
+        "requests nobody reads (by one or all protocols, sometimes split by a clock step), 1-3 requests of a keep-alive protocol "
+        "answered ChannelClogged, then either the connection task receives and refuses all 256 (every permit gone) or not, polls "
+        "at T-1 / T after the last activity; a case is non-trivial if some connection was seen alive, later seen "
         "without strong sender, and a keep-alive protocol opened a substream; distinct = distinct transcripts by SHA-256")
 TRUSTED_BASE = ["Lean 4.33 kernel", "axioms: propext, Classical.choice, Quot.sound only",
                 "hand-written model Model/Service/KeepAlive.lean tied to transport_service.rs/connection.rs/protocol_set.rs by this run",
@@ -203,6 +207,59 @@ def gen_case(rng, n_ops):
     return ops
 
 
+CMD_CAP = 256   # ProtocolSet::new: channel(256) (Lean: Service.CMD_CAP)
+
+
+def gen_clog(rng):
+    """A burst of `open_substream` calls that nobody reads fills the connection's command channel (256 slots); the next
+    open of a keep-alive protocol is answered `ChannelClogged`. The handle was active inside the keep-alive window and
+    must stay so: variant `drain` lets the connection task receive and refuse every queued request (all permits gone)
+    and then looks at the strong-sender count just before / at T after the last activity; variant `tie` polls and
+    advances right after the clogged open."""
+    T = rng.choice([40, 100, 250])
+    kinds = rng.choice([["Y"], ["Y", "N"], ["N", "Y"], ["Y", "Y"], ["Y", "N", "Y"]])
+    yes = [k for k, x in enumerate(kinds) if x == "Y"]
+    i = rng.choice(yes)
+    p = rng.choice(PEERS)
+    c = p * 10
+    ops = [f"cfg {T} " + " ".join(kinds), f"est {p} {c}", "next"]
+    t0 = rng.choice([0, 1, T // 4, T // 2, T - 1])
+    if t0:
+        ops += [f"adv {t0}", "next"]
+    fillers = [i] if rng.random() < 0.5 else list(range(len(kinds)))
+    split = rng.randrange(1, CMD_CAP) if rng.random() < 0.3 else None
+    for n in range(CMD_CAP):
+        ops.append(f"open {rng.choice(fillers)} {p}")
+        if n == split:
+            ops += ["next", "adv 1", "next"]
+    now = t0 + (1 if split is not None else 0)
+    if rng.random() < 0.5:
+        ops.append("next")
+    # who hits the full channel: the keep-alive protocol (sometimes after a protocol without keep-alive)
+    if len(kinds) > len(yes) and rng.random() < 0.4:
+        ops.append(f"open {rng.choice([k for k in range(len(kinds)) if k not in yes])} {p}")
+    ops += [f"open {i} {p}"] * rng.choice([1, 1, 2, 3])
+    la = now                                     # the code records the attempt as activity
+    ops.append("next")
+    variant = rng.choice(["drain", "drain", "tie"])
+    if variant == "drain":
+        if rng.random() < 0.5:
+            ops += [f"recv {c}"] * CMD_CAP + [f"subfail {c} *"] * CMD_CAP
+        else:
+            for _ in range(CMD_CAP):
+                ops += [f"recv {c}", f"subfail {c} *"]
+        ops.append("next")
+        ops.append(f"recv {c}")
+        if rng.random() < 0.5:                   # the channel has room again
+            ops += [f"open {i} {p}", "next", f"recv {c}", f"subfail {c} *", "next"]
+    left = la + T - now
+    for dt in ([left - 1, 1, 1] if left > 1 and rng.random() < 0.7 else [left // 2, left - left // 2, T]):
+        if dt > 0:
+            ops += [f"adv {dt}", "next"]
+    ops += [f"recv {c}", f"adv {T}", "next", f"recv {c}"]
+    return ops
+
+
 def corpus():
     return [
         # unit-test scenarios under logical time
@@ -218,7 +275,10 @@ def corpus():
 
 def gen_cases(rng, tier):
     n = {"quick": 600, "thorough": 20000, "search": 3000}[tier]
+    every = {"quick": 60, "thorough": 100, "search": 100}[tier]
     for i in range(n):
+        if i % every == 2:
+            yield gen_clog(rng)
         yield gen_case(rng, rng.choice([8, 15, 25, 40, 60]))
 
 
@@ -290,6 +350,7 @@ def oracle(case, out):
     held = {}              # proto -> list of (conn) of substreams held, in delivery order
     pending_est = []       # conns established but not yet processed
     pending_closed = []
+    clogged = {}           # conn -> time of the last open_substream of a keep-alive protocol answered ChannelClogged
     prompt = True          # every activity has been followed by a poll before time advanced
     unpolled = False
     for i, op in enumerate(case):
@@ -334,11 +395,15 @@ def oracle(case, out):
                     la_min[c] = la_max[c] = max(la_max.get(c, 0), now)
                     unpolled = True
             elif o in ("err closed", "err clogged") and yes:
-                # activity may or may not have been recorded (depends on where it failed)
+                # activity may or may not have been recorded (depends on where it failed): the upper bound moves, the
+                # lower bound (`la_min`: the connection is kept until T after the last activity that did happen) stays
+                # — a refused request takes nothing away from the connection
                 cs = [c for c in order.get(p, []) if c in live]
                 if cs:
                     la_max[cs[0]] = max(la_max.get(cs[0], 0), now)
                     unpolled = True
+                    if o == "err clogged":
+                        clogged[cs[0]] = now
         elif t[0] == "recv":
             c = int(t[1])
             if o == "none" and c in live:
@@ -347,7 +412,8 @@ def oracle(case, out):
                 if busy:
                     v("closed-while-busy", f"connection {c} loop would exit while a keep-alive substream exists or is being opened", i)
                 elif c in la_min and now < la_min[c] + T:
-                    v("closed-early", f"connection {c} without strong sender at {now}, last keep-alive activity {la_min[c]}, T={T}", i)
+                    why = f" (open_substream answered ChannelClogged at {clogged[c]})" if c in clogged else ""
+                    v("closed-early", f"connection {c} without strong sender at {now}, last keep-alive activity {la_min[c]}, T={T}{why}", i)
         elif t[0] == "subopen":
             pass
         elif t[0] == "subfail":
@@ -408,7 +474,8 @@ def oracle(case, out):
                     if busy_ka:
                         v("closed-while-busy", f"connection {c} has no strong sender at {now} while a keep-alive substream exists or is being opened", i)
                     elif now < la_min[c] + T:
-                        v("closed-early", f"connection {c} has no strong sender at {now}: last keep-alive activity {la_min[c]}, T={T}", i)
+                        why = f" (open_substream answered ChannelClogged at {clogged[c]})" if c in clogged else ""
+                        v("closed-early", f"connection {c} has no strong sender at {now}: last keep-alive activity {la_min[c]}, T={T}{why}", i)
                 elif prompt and not any_pending and now >= la_max[c] + T:
                     v("not-closed", f"connection {c} still has a strong sender at {now}: last keep-alive activity {la_max[c]}, T={T}, nothing held or opening", i)
     return bad
